@@ -481,7 +481,9 @@ def own_lists(prog, run, ci, f):
                     why = "a list built here" if o == "fresh" else (f"`{astq.src(v, 40)}` is taken over from {o[1]}" + (": one object for every dialog - the entries one dialog appends stay in it for the next" if o[0] == "shared" else
                                                                      ": the caller's own list is changed in place") if isinstance(o, tuple) else f"origin of `{astq.src(v, 40)}` not followed")
                     run.ob("R-own-lists", m.qual, f"self.{attr} is the dialog's own list", ok, why, witness=f"{attr}:{o if isinstance(o, str) else (o[0] if o else None)}", file=f, node=st)
-    if n == 0:
+    if n == 0 and not any(inplace.values()):
+        run.ob("R-own-lists", ci.qual, "list attributes", True, "the selection lists are never changed in place in the dialog (every change binds a new list): nothing taken over can be modified", file=f, node=ci.node)
+    elif n == 0:
         run.ob("R-own-lists", ci.qual, "list attributes", None, "no binding of the selection lists found", file=f, node=ci.node)
 
 
@@ -500,7 +502,8 @@ def pick(prog, run, ci, f):
                 apps[recv.attr] = n
     if not {"pole_ind", MAIN} <= set(apps):
         # entries may be put in by a helper of the dialog (sorted insertion): not read here
-        helper = any(isinstance(n, ast.Call) and self_attr(n.func) and n.func.attr.startswith("_") for n in ast.walk(m.node))
+        helper = any(isinstance(n, ast.Call) and ((self_attr(n.func) and n.func.attr.startswith("_")) or
+                                                  (isinstance(n.func, ast.Name) and (astq.callee_name(prog, m, n) or "").startswith("pyoma2."))) for n in ast.walk(m.node))
         run.ob("R-pick", m.qual, "appends", None if helper else False, "pick does not append to both lists" + (" itself (a helper of the dialog is called: not followed)" if helper else ""),
                witness="missing", file=f, node=m.node)
         return
